@@ -150,6 +150,13 @@ def known_findings():
     return json.load(open(p))
 
 
+def builtins_any(it):
+    for x in it:
+        if x:
+            return True
+    return False
+
+
 class Report:
     """Collects what one check run did; prints KNOWN-FINDING / VIOLATION lines; writes evidence."""
 
@@ -184,6 +191,10 @@ class Report:
                 self.known_hits.setdefault(signature, f)
                 return
         self.violations.append((signature, replay, no_input))
+
+    def has_failing_input(self):
+        """has a violation with a concrete failing input been reported so far (listed known findings do not count)"""
+        return builtins_any(not no_input for _s, _r, no_input in self.violations)
 
     def finish(self):
         os.makedirs(EVID, exist_ok=True)
